@@ -392,6 +392,14 @@ impl SameReceiver {
 
         // 2. symbol timing error detection
         let sync_out = self.symsync.input(sa_low, clock_remaining_sa);
+        #[cfg(feature = "verif-hooks")]
+        verif::tap_ted(
+            self.input_sample_counter,
+            clock_remaining_sa,
+            sa_low,
+            sync_out.0,
+            &sync_out.1,
+        );
         self.samples_until_next_ted = sync_out.0;
         let bit_samples = sync_out.1?;
 
